@@ -37,6 +37,7 @@ def insert_case(n):
 
 
 def m_cases(tier):
+    tier = "thorough"  # the full case list is cheap enough to run on every change (the tiers differ only in validation vectors)
     import C02
     ns = [1, 2, 3] if tier == "quick" else [1, 2, 3, 4, 5]
     cs = [insert_case(n) for n in ns]
